@@ -468,6 +468,37 @@ Eval vm_compute in (let '(a, b) := process_two_day_loads rej ext cal dc dh [[0]]
                 chk.cov["correspondence_cases"] = chk.cov.get("correspondence_cases", 0) + 24
 
 
+def split_checks(chk, profs, outs):
+    """translation validation of the REGENERATED split_heat_and_cool and split_loads_by_month: evaluated in Coq on real years of hourly loads
+    (exact rationals of the floats) against the arrays the real HybridLoad holds (sums and averages within 1e-6: float accumulation)"""
+    if not getattr(chk, "model_ok", False):
+        return
+    done = 0
+    for p, o in zip(profs, outs):
+        if not o.get("ok") or "raw" not in o or done >= (1 if chk.tier == "quick" else 5):
+            continue
+        done += 1
+        n = len(o["days_in_month"])       # the arrays as split_loads_by_month leaves them: one entry per calendar month (later years are appended afterwards)
+        txt = TD_HEADER + f"""Definition raw : list Q := {qlist(o['raw'])}.
+Definition days : list Q := {qlist(o['days_in_month'])}.
+Definition z : list Q := repeat 0 {n}.
+Definition tol : Q := 1 # 1000000.
+Definition lcl (a b : list Q) : bool := list_eqb (qclose tol) a b.
+Eval vm_compute in (let sp := split_heat_and_cool raw in
+  let '(cl, hl, pcl, phl, acl, ahl, dcl, dhl) := split_loads_by_month days (fst sp) (snd sp) z z z z z z z z in
+  [lcl (fst sp) {qlist(o['rej'])}; lcl (snd sp) {qlist(o['ext'])}; lcl cl {qlist(o['cl'][:n])}; lcl hl {qlist(o['hl'][:n])}; lcl pcl {qlist(o['pcl'][:n])}; lcl phl {qlist(o['phl'][:n])};
+   lcl acl {qlist(o['acl'][:n])}; lcl ahl {qlist(o['ahl'][:n])}; leq dcl {qlist(o['daycl'][:n])}; leq dhl {qlist(o['dayhl'][:n])}]).
+"""
+        rc, out, err = chk.coq_eval(f"split{done}", txt, timeout=900)
+        flat = " ".join(out.split())
+        if rc != 0 or "false" in flat or "true" not in flat:
+            chk.broken.append({"name": "translation validation C06: the regenerated split_heat_and_cool / split_loads_by_month differ from the real methods on a real year of loads",
+                               "detail": (err or flat)[-300:]})
+        else:
+            chk.cov["traces_validated_against_impl"] = chk.cov.get("traces_validated_against_impl", 0) + 10
+            chk.cov["correspondence_cases"] = chk.cov.get("correspondence_cases", 0) + 10
+
+
 def csv_time_axis(chk):
     """the other observation point of C08: the time column of TimeDependentValues.csv of real designs (horizons that are not whole years)"""
     import csv
@@ -720,6 +751,8 @@ def run_hybrid_check(chk, which, props_file, extra_models):
         nontrivial += oracle_profile(chk, which, p, o)
     if which == "C07":
         two_day_checks(chk, profs, res["profiles"])
+    if which == "C06":
+        split_checks(chk, profs, res["profiles"])
     if which == "C08":
         csv_time_axis(chk)
     if which == "C07":
